@@ -168,6 +168,9 @@ func checkSeq(c SeqCase, o *vf.Obs) error {
 		if !tx.Equal(finish) {
 			return fmt.Errorf("exhausted schedule reports finish start+%v, the chain of parts finishes at start+%v", tx.Sub(start), finish.Sub(start))
 		}
+		if tx.Before(prev) {
+			return fmt.Errorf("exhausted schedule reports finish start+%v, earlier than the last token it handed to the same caller (start+%v)", tx.Sub(start), prev.Sub(start))
+		}
 		if l := s.Left(); l != 0 {
 			return fmt.Errorf("Left()=%d after exhaustion", l)
 		}
@@ -207,6 +210,78 @@ func TestSeqFinite(t *testing.T) {
 	pand.Init()
 	r := vf.Start(t, "C02")
 	vf.Check(r, genSeq, checkSeq)
+}
+
+// TestSeqDense: trees whose first parts are DENSE constant-rate parts (5e4-2e6 rps, rates that are no divisor of 1e9,
+// 3000-40000 tokens in 2-700 ms) in front of further parts. Whatever error a part accumulates per token shows at its
+// end: its last tokens against its own finish time, where the next part begins - "times returned to one caller never
+// decrease" across the part boundary. Same oracle as TestSeqFinite (checkSeq).
+func genSeqDense(t *rapid.T) SeqCase {
+	c := SeqCase{}
+	var kids []sg.Node
+	nDense := rapid.IntRange(1, 2).Draw(t, "nDense")
+	for i := 0; i < nDense; i++ {
+		ops := float64(rapid.Int64Range(50_000, 2_000_000).Draw(t, "ops"))
+		if rapid.Bool().Draw(t, "opsFraction") {
+			ops += float64(rapid.IntRange(1, 99).Draw(t, "opsHundredths")) / 100
+		}
+		n := rapid.Int64Range(3000, 40000).Draw(t, "tokens")
+		dur := int64(float64(n) / ops * 1e9)
+		dur -= dur % 1_000_000 // whole milliseconds, as a user writes them
+		if dur < 1_000_000 {
+			dur = 1_000_000
+		}
+		kind := rapid.SampledFrom([]string{"const", "const", "line", "step"}).Draw(t, "denseKind")
+		switch kind {
+		case "const":
+			kids = append(kids, sg.Node{Kind: "const", From: ops, DurNs: dur})
+		case "line": // a flat line is a constant rate
+			kids = append(kids, sg.Node{Kind: "line", From: ops, To: ops, DurNs: dur})
+		case "step": // two levels of half the length each
+			ops = float64(int64(ops))
+			kids = append(kids, sg.Node{Kind: "step", From: ops, To: ops + 7, Step: 7, DurNs: dur/2 + 1_000_000 - (dur/2)%1_000_000})
+		}
+	}
+	nTail := rapid.IntRange(1, 3).Draw(t, "nTail")
+	for i := 0; i < nTail; i++ {
+		switch rapid.IntRange(0, 2).Draw(t, "tailKind") {
+		case 0:
+			kids = append(kids, sg.Node{Kind: "once", N: rapid.Int64Range(1, 5).Draw(t, "onceN")})
+		case 1:
+			kids = append(kids, sg.Node{Kind: "const", From: float64(rapid.IntRange(1, 2000).Draw(t, "tailOps")), DurNs: int64(rapid.IntRange(1, 50).Draw(t, "tailMs")) * 1_000_000})
+		default:
+			kids = append(kids, sg.Node{Kind: "line", From: float64(rapid.IntRange(0, 500).Draw(t, "tailFrom")), To: float64(rapid.IntRange(0, 5000).Draw(t, "tailTo")), DurNs: int64(rapid.IntRange(1, 50).Draw(t, "tailMs")) * 1_000_000})
+		}
+	}
+	c.Tree = sg.Node{Kind: "composite", Children: kids}
+	c.Script = rapid.SliceOfN(rapid.Bool(), 0, 20).Draw(t, "script")
+	c.StartNs = rapid.Int64Range(0, 2_000_000_000_000_000_000).Draw(t, "start")
+	c.Wrap = rapid.Bool().Draw(t, "wrap")
+	c.ViaConfig = rapid.Bool().Draw(t, "viaConfig") && sg.ConfigOK(c.Tree)
+	return c
+}
+
+func checkSeqDense(c SeqCase, o *vf.Obs) error {
+	if err := checkSeq(c, o); err != nil {
+		return err
+	}
+	roundsUp := false
+	for _, k := range c.Tree.Children {
+		if k.DurNs > 0 && k.From >= 50_000 {
+			iv := 1e9 / k.From
+			roundsUp = roundsUp || iv-float64(int64(iv)) >= 0.5
+		}
+	}
+	o.ClassIf(roundsUp, "dense_part_interval_fraction_ge_half_ns")
+	o.Class("dense_part_before_further_parts")
+	o.NonTrivial()
+	return nil
+}
+
+func TestSeqDense(t *testing.T) {
+	pand.Init()
+	r := vf.Start(t, "C02")
+	vf.Check(r, genSeqDense, checkSeqDense)
 }
 
 // ---------- concurrent, finite ----------
